@@ -21,6 +21,7 @@ mod user;
 mod verif_seam;
 
 mod blocking;
+mod dbround;
 mod isolate;
 mod oracle16;
 mod scen;
@@ -59,6 +60,7 @@ fn lookup(scenario: &str, property: &str) -> Option<Box<dyn simcore::cli::Dyn>> 
         ("isolation", "C17") => Some(Box::new(scen::Service { property: "C17", name: "isolation" })),
         ("contended", "C17") => Some(Box::new(scen::Service { property: "C17", name: "contended" })),
         ("answers", "C16") => Some(Box::new(scen::Service { property: "C16", name: "answers" })),
+        ("dbround", "C14") => Some(Box::new(dbround::DbRound)),
         _ => None,
     }
 }
